@@ -27,6 +27,9 @@ def gen_cases(tier, seed):
     n = 1000 if tier == "quick" else 18000
     for i in range(n):
         yield {"kind": "pair", "pert": PERTS[i % len(PERTS)], "seed": "%d:%d" % (seed, i)}
+    # device-rejected pushes of more than one send buffer, the FAIL arriving before / after the OKAY of the WRTE that provoked it, at SEND or at a DATA record
+    for j in range(40 if tier == "quick" else 400):
+        yield {"kind": "pair", "pert": "syncfail", "seed": "%d:pf%d" % (seed, j), "force_push": True}
     # exact-fit sweep: the two twins must cut the same FileSync data into the same WRTE packets at every buffer fill level
     for md in ((4096, 4097) if tier == "quick" else (4096, 4097, 5000, 8192, 65536)):
         chunk = min(65536, md // 2)
@@ -143,6 +146,9 @@ def one_side(impl, case, sc, pert):
                 elif st_["op"] == "push":
                     if which < 2:
                         plan.send_fail[pth] = ([("send"), ("data", 1)][which], b"denied")
+                        if which2 % 2 == 0:
+                            st_["size"] = max(st_.get("size", 0), 6000 + 997 * which)        # (more than one send buffer: there is something left to send when the FAIL is read)
+                            plan.early_reply = True       # the FAIL overtakes the OKAY of the WRTE that provoked it; the device goes on acknowledging what follows
                     else:
                         plan.send_raw_status[pth] = struct.pack("<II", [wire.ID_DATA, wire.ID_DONE][which - 2], 0)
         if pert == "corrupt":
@@ -524,6 +530,9 @@ def run_case(case):
     rng = gen.rng_for("C16", case["seed"])
     pert = case["pert"]
     sc = scen.gen_scenario(rng, nsteps=rng.randint(1, 6))
+    if case.get("force_push"):
+        sc["steps"] = [{"op": "push", "path": "/pf%d" % k, "size": rng.choice([3000, 6000, 9000, 70000]), "seed": "%08x" % rng.getrandbits(32), "src": "bytesio", "mode": 0o100644, "mtime": 4, "cb": rng.choice([None, "ok"])}
+                       for k in range(rng.randint(1, 2))] + sc["steps"][:2]
     if pert == "slowpush":
         # the default mtime (0 = "now") is resolved while virtual time passes: both twins must stamp each file at the same moment
         sc["steps"] = [{"op": "push", "path": "/sp%d" % i, "size": rng.choice([10, 3000, 9000]), "seed": case["seed"] + str(i), "src": "bytesio", "mode": 0o100644, "mtime": 0, "cb": None} for i in range(rng.randint(1, 3))]
